@@ -1,6 +1,6 @@
 rc_target("c17_memtrace", flavour="asan")
 rc_target("c17_memtrace_mt", flavour="sched", wrap=True)
-plan("C17", [T("c17_memtrace", 8000, 100000), T("c17_memtrace_mt", 2000, 25000)], min_nt=1000,
+plan("C17", [T("c17_memtrace", 8000, 60000), T("c17_memtrace_mt", 2000, 10000)], min_nt=3000,
      rule="allocation histories against a reference live map; threaded histories x schedules under the controlled scheduler",
      technique="model-based property testing (rapidcheck): command sequences vs. a reference live map with block patterns; "
                "threaded programs x generated schedules under the controlled scheduler with an in-flight-operation oracle",
